@@ -263,8 +263,10 @@ class U:
         ob = self.ctx.oblige(name, ops.B_(goal), kind="post", tags=tuple(tags) if tags else self.udef.props, note=note)
         ob.algebra_only = algebra_only
         if assume:
-            # a proved clause may serve as a lemma for the obligations that follow
+            # a proved clause may serve as a lemma for the obligations that follow; if it is NOT proved, what was derived
+            # from it is re-examined on concrete instances (same treatment as a failed side condition)
             self.ctx.assume(goal)
+            ob.assumed_after = True
         return ob
 
     def prove_forall(self, name, shape, fn, tags=None, note=""):
@@ -552,7 +554,7 @@ def run_unit(name, repo_root=None, want_canaries=True, timeout_ms=None):
             open_jobs.append((ctx, ob, r))
     # a failed side condition of a lemma instance invalidates what was derived from it: re-examine every
     # clause of the unit on concrete instances (where no lemma is needed)
-    side_failed = [ob.name for _, ob, r in open_jobs if ob.kind == "side" or ob.name.startswith("loopinv.")]
+    side_failed = [ob.name for _, ob, r in open_jobs if ob.kind == "side" or ob.name.startswith("loopinv.") or getattr(ob, "assumed_after", False)]
     if side_failed:
         for (ctx_, ob), r in zip(jobs, res1):
             if r["status"] == "proved" and ob.kind in ("post", "assert") and ob.name in seen:
@@ -591,6 +593,8 @@ def run_unit(name, repo_root=None, want_canaries=True, timeout_ms=None):
             del seen[n]
     for (ctx, ob), r in zip(still, res3):
         merge(ob, r)
+    # side conditions / assumed lemmas that the full budget (phase 3) did prove no longer taint their dependents
+    side_failed = [n for n in side_failed if not (seen.get(n) and seen[n]["status"] == "proved")]
     if side_failed:
         for n in list(seen):
             rec = seen[n]
